@@ -60,6 +60,11 @@ def min_error_cases(tier, seed):
     for d, keys in en.mixed_subsets(tier):
         for prior in en.prior_keys(len(keys)):
             yield {"d": d, "keys": keys, "kind": "dens", "prior": prior, "form": "dm"}
+    # ensembles that list a state twice (cf. seeded change C12-11, which merged repeated states and summed their priors)
+    for j, (d, keys) in enumerate(en.ket_subsets(tier)):
+        if len(keys) == 2 and j % (6 if tier == "quick" else 2) == 0:
+            yield {"d": d, "keys": [keys[0], keys[1], keys[0]], "kind": "ket", "prior": "ramp", "form": "col"}
+            yield {"d": d, "keys": [keys[1], keys[1], keys[0]], "kind": "ket", "prior": "uniform", "form": "dm"}
 
 
 def check_min_error_values(tag, val, rhos, w, b, problems):
